@@ -46,6 +46,9 @@ checks = {
  "C13": dict(design="4/C13", engine="tlc-memo", technique="TLC model checking of Memo.tla (key derivation and stored artefact per call site; invariant CacheInvisible over all build/close histories of WAFs whose configurations reuse one string in different roles) + replay of every history in one process of a probe program built from /repo, compared with each configuration built alone in a fresh process and with a -tags coraza.no_memoize build; self-test that the text-only key design violates CacheInvisible in TLC",
    text="Which bytes of a configuration become the cache key and which artefact is stored is modelled per call site; TLC checks that every lookup returns the artefact the caller would have built itself over all histories of building and closing WAFs from a pool of colliding configurations; every history is replayed in one OS process (shared cache) and each WAF's construction result and probe outcomes are compared with the same configuration alone in a fresh process and with the cache compiled out.",
    note="Trusts TLC and the probe program (cmd/c13probe). The configuration pool is the one of Memo.tla (11 configurations); concurrency of the cache is C06."),
+ "C06": dict(design="4/C06", engine="tlc-memo", technique="TLC model checking of MemoConc.tla (PlusCal model of memoize.Do / Release, one label per critical section: all interleavings, deadlock freedom and cache invariants) + race-detector stress of the real library (-race -tags verif) with yield injection at the verif hook points, per-transaction comparison with the sequential outcome, quiescent-cache invariants and audit-log integrity",
+   text="The lock-free / mutex / singleflight protocol of the shared pattern cache is an explicit PlusCal model whose every interleaving TLC explores; races, cross-talk and deadlocks of the real code are searched by running generated transactions concurrently on one WAF, while other WAFs sharing cached patterns are built and closed, under the Go race detector with scheduling noise injected at the protocol's yield points; each transaction is compared with its sequential outcome and the model's quiescent invariants are evaluated on the real cache.",
+   note="The Go scheduler cannot be enumerated: interleavings of the real code are sampled (race detector + yield injection, several seeds); only the memoize protocol is exhaustive, at the grain of its critical sections. Trusts the race detector."),
 }
 
 not_built_reason = "check under construction in this session (see DESIGN.md section 4); not claimed until its machinery is committed"
